@@ -1,18 +1,21 @@
 (* C17 — bitmap and TheDraw fonts survive every encoding the engine uses.
    Only statements, each closed by `exact <lemma>`; proofs live in Proofs/FontProofs.v and Proofs/TdfProofs.v.
    The functions quantified over are the models of Model/Font.v and Model/Tdf.v (over the constants of
-   Gen/FontConsts.v, regenerated from src/fonts.rs and src/tdf_font/mod.rs on every run), i.e. the code after
-   the `fix:` commits of the C17 branch. `res` distinguishes Ok / Err (returned error) / Panic / Diverge.
+   Gen/FontConsts.v, regenerated from src/fonts.rs and src/tdf_font/mod.rs on every run), i.e. the merged tree: the
+   `fix:` commits of C17 plus C10's c9c7437 (checked glyph-index -> char conversion, empty glyph for a missing one). `res` distinguishes Ok / Err (returned error) / Panic / Diverge.
 
    Domains (defined in Proofs/FontProofs.v, Proofs/TdfProofs.v):
      wf_font f      width 8, height 1..=32, length 256 or 512, exactly `length` glyphs of `height` rows each
      wf_psf2_font f width, height < 2^31, height >= 1, 0 <= length <= 0xD800, `length` glyphs of `height` rows
      wf_raw_font f  width 8, height 1..=255 (a u8), length 256, 256 glyphs of `height` rows
+     wf_psf2_partial f / wf_raw_partial f   as wf_psf2_font / wf_raw_font but with ANY number of glyphs present
+                    (fewer or more than `length`); pad_font f = f with the glyph table cut / padded with empty
+                    (all-zero) glyphs to exactly `length` entries
      wf_tfont f     name <= 12 bytes, no NUL, valid UTF-8; 0 <= spaces <= 40; 94 table slots; every defined glyph has
                     width, height in 0..=255 and NUL-free data (colour fonts: (char, attribute) pairs, CR alone, any
                     attribute byte); at most 65535 bytes of glyph data (2 + data + 1 per glyph) in the font
    Row bytes / glyph data are arbitrary numbers: nothing in the round trips depends on them being < 256. *)
-From Coq Require Import NArith ZArith List Bool.
+From Coq Require Import NArith ZArith List Bool Lia.
 From IE Require Import Lib.Tbl Lib.C17Lib Gen.FontConsts Model.Font Model.Tdf Proofs.FontProofs Proofs.TdfProofs.
 Import ListNotations.
 Local Open Scope N_scope.
@@ -26,10 +29,25 @@ Theorem psf2_roundtrip_general : forall f, wf_psf2_font f ->
   exists bs, to_psf2_bytes f = Ok bs /\ from_bytes bs = Ok f.
 Proof. exact psf2_roundtrip_proof. Qed.
 
+(* c9c7437: a missing glyph is written as an empty one instead of panicking (`unwrap`): the writer succeeds for any
+   number of glyphs present and the loader returns the font padded / cut to `length` glyphs.
+   psf2_roundtrip_general is the instance where nothing is missing (pad_font f = f). *)
+Theorem psf2_partial_roundtrip : forall f, wf_psf2_partial f ->
+  exists bs, to_psf2_bytes f = Ok bs /\ from_bytes bs = Ok (pad_font f).
+Proof. exact psf2_padded_proof. Qed.
+
+Theorem pad_font_complete : forall f, lenN (f_glyphs f) = Z.to_N (f_len f) -> pad_font f = f.
+Proof. exact pad_font_id. Qed.
+
 Theorem raw_roundtrip : forall f, wf_raw_font f ->
   exists raw, convert_to_u8_data f = Ok raw /\
               create_8 8 (Z.to_N (f_h f)) raw = f /\ from_basic 8 (Z.to_N (f_h f)) raw = f.
 Proof. exact raw_roundtrip_proof. Qed.
+
+Theorem raw_partial_roundtrip : forall f, wf_raw_partial f ->
+  exists raw, convert_to_u8_data f = Ok raw /\
+              create_8 8 (Z.to_N (f_h f)) raw = pad_font f /\ from_basic 8 (Z.to_N (f_h f)) raw = pad_font f.
+Proof. exact raw_padded_proof. Qed.
 
 (* the fonts of the property with 256 glyphs are raw fonts *)
 Theorem wf_font_256_is_raw : forall f, wf_font f -> f_len f = 256%Z -> wf_raw_font f.
@@ -81,6 +99,18 @@ Proof. exact from_bytes_total_proof. Qed.
 Theorem dcs_total : forall (b64_dec : list N -> option (list N)) s, safe (load_custom_font b64_dec s).
 Proof. exact dcs_total_proof. Qed.
 
+(* the writers, too (new with c9c7437: no `unwrap` of a missing glyph, no unchecked char): they return for EVERY
+   glyph table, every `length` and every width, as long as the height is not negative; a negative height together
+   with a missing glyph is the one panic left (`vec![0; height as usize]`, capacity overflow) *)
+Theorem to_psf2_bytes_total : forall f, (0 <= f_h f)%Z -> safe (to_psf2_bytes f).
+Proof. exact to_psf2_bytes_total_proof. Qed.
+
+Theorem convert_to_u8_data_total : forall f, (0 <= f_h f)%Z -> safe (convert_to_u8_data f).
+Proof. exact convert_total_proof. Qed.
+
+Theorem writers_negative_height_refuted : exists f, to_psf2_bytes f = Panic 6 /\ convert_to_u8_data f = Panic 6.
+Proof. exact to_psf2_bytes_negative_height_refuted. Qed.
+
 (* create_8 / from_basic are total functions in the model (they cannot panic); what they build from arbitrary data
    is a table of complete glyphs *)
 Theorem create_8_rows : forall w h data, rows_ok h (f_glyphs (create_8 w h data)).
@@ -120,6 +150,15 @@ Example sample_font_psf2 :
   | _ => False
   end.
 Proof. vm_compute. repeat split. Qed.
+(* a font with 3 of its 5 codes present: the file has 5 glyphs, the last two empty *)
+Example sample_partial_psf2 :
+  let f := mkFont 8 2 5 [[1; 2]; [3; 4]; [5; 6]] in
+  wf_psf2_partial f /\
+  match to_psf2_bytes f with
+  | Ok bs => lenN bs = 42 /\ from_bytes bs = Ok (mkFont 8 2 5 [[1; 2]; [3; 4]; [5; 6]; [0; 0]; [0; 0]])
+  | _ => False
+  end.
+Proof. split; [unfold wf_psf2_partial, rows_ok, MAX_GLYPHS; cbn; repeat split; try lia; repeat constructor | vm_compute; repeat split]. Qed.
 Example sample_font_raw_wf : wf_raw_font (sample_font 256).
 Proof. exact (wf_font_raw _ sample_font_256_wf eq_refl). Qed.
 
